@@ -37,7 +37,10 @@ EXTENDS Sequences, Integers, FiniteSets, TLC
 CONSTANTS TitleClean,       \* "rooted" = path.Clean("/"+title) (the code) | "stripdots" = Clean, then strip leading "../"
           LinkPolicy,       \* "skip" = link entries are not materialised (the code) | "lexical" = created when the
                             \* target stays lexically inside | "raw" = created unconditionally
-          DeleteValidates,  \* FALSE = ocidir.ManifestDelete as found (S15) | TRUE = digest validated first
+          DeleteValidates,  \* TRUE = ocidir.ManifestDelete validates the reference digest first (the code since fix
+                            \* 3b8373e; default of every configuration) | FALSE = the variant found originally (S15):
+                            \* no Validate when the caller supplies the manifest (kept as a switch: C20_mc_s15.cfg,
+                            \* C20_gen_lay_asis.cfg explain what the reverse of the fix does)
           MaxFull, MaxCore  \* hostile names: all class sequences up to MaxFull, core classes up to MaxCore
 
 Special == {"dotdot", "dot", "empty"}
@@ -232,7 +235,8 @@ ManifestPutT(layout, s) ==                                                      
 ManifestDeleteT(layout, s) ==                                                    \* manifest.go: ManifestDelete
   IF s.wm = "none" THEN Guarded(layout, RefD(s))                                 \* manifestGet refuses first
   ELSE IF s.wm = "hsubject" /\ ~Validate(Dig(s.h)) THEN {}                       \* referrerDelete: FallbackTag cannot parse the subject
-  ELSE IF DeleteValidates THEN Guarded(layout, RefD(s)) ELSE Unguarded(layout, RefD(s))
+  ELSE IF DeleteValidates THEN Guarded(layout, RefD(s))                           \* the code: Validate at the top of ManifestDelete
+  ELSE Unguarded(layout, RefD(s))                                                \* switch: variant before the fix (S15)
 CloseT(layout, s) == Guarded(layout, ContentD(s))                                \* close.go: marks via manifestGet; sweeps only ReadDir children
 CopyT(layout, s) == Guarded(layout, ContentD(s)) \cup Guarded(layout, RefD(s))   \* image.go copy: Manifest/Blob calls above
 LayoutTouches(layout, s) ==
